@@ -212,8 +212,16 @@ pub fn storage_fault(rng: &mut Rng, t: &mut Vec<u8>, corpus: &Corpus, allow: &[&
                     // (incl. well-known ill-formed schemes: CESU-8 surrogate pairs, overlong forms, code points beyond U+10FFFF, a
                     // UTF-16 or UTF-8 BOM in the middle)
                     let seqs: [&[u8]; 18] = [&[0x80], &[0xBF], &[0xC0, 0xAF], &[0xE0, 0x80, 0xAF], &[0xF8], &[0xFF], &[0xED, 0xA0, 0x80], &[0xE4, 0xB8], &[0xF0, 0x9F, 0x98], &[0xC3], &[0xED, 0xA0, 0xBD, 0xED, 0xB8, 0x80], &[0xED, 0xAF, 0xBF, 0xED, 0xBF, 0xBF], &[0xED, 0xB8, 0x80, 0xED, 0xA0, 0xBD], &[0xF4, 0x90, 0x80, 0x80], &[0xF0, 0x80, 0x80, 0xAF], &[0xC0, 0x80], &[0xFF, 0xFE], &[0xEF, 0xBB, 0xBF]];
-                    let s = *rng.pick(&seqs);
-                    t.splice(o..o, s.iter().copied());
+                    if rng.chance(1, 8) {
+                        // a burst: text in a legacy double-byte encoding (64..300 bytes >= 0x80 in a row, some pairs valid
+                        // by accident), in the middle of a line
+                        let n = 64 + rng.below(240);
+                        let burst: Vec<u8> = (0..n).map(|_| 0x80 + rng.below(0x7D) as u8).collect();
+                        t.splice(o..o, burst);
+                    } else {
+                        let s = *rng.pick(&seqs);
+                        t.splice(o..o, s.iter().copied());
+                    }
                 }
                 Enc::Utf16Le | Enc::Utf16Be => {
                     // lone surrogate at a code-unit aligned position, or an odd tail byte
@@ -464,7 +472,8 @@ pub fn gen_hostile_slider(rng: &mut Rng, time: i64) -> String {
             format!("{}{}", rng.pick(&["B", "C", "L", "P"]), p.repeat(2 + rng.below(6)))
         }
     };
-    let len = *rng.pick(&["", "", ",0", ",100000", ",131072", ",1", ",0.0001", ",-5"]);
+    let len = *rng.pick(&["", "", ",0", ",100000", ",131072", ",1", ",0.0001", ",-5", ",1e-14", ",1e-300", ",5e-324"]);
+    let time = if rng.chance(1, 8) { *rng.pick(&[2_147_483_000i64, 1_000_000_000, 2_000_000_000]) + time % 1000 } else { time };
     let slides = rng.range(1, 3);
     let (x, y) = if rng.chance(1, 2) { (0, 0) } else { (rng.range(-131_072, 131_072), rng.range(-131_072, 131_072)) };
     if len.is_empty() {
@@ -502,7 +511,7 @@ pub fn gen_hit_object(rng: &mut Rng, time: i64, mode: i64) -> String {
             // bounded work: a slider with thousands of spans keeps a playable length (9000 spans x 1e5 px of ticks is
             // seconds of legitimate work per encode and tells nothing new)
             let many_spans = slides.parse::<i64>().map_or(true, |n| n > 50);
-            let len = if !many_spans && rng.chance(1, 10) { rng.pick(&["0", "-10", "", "1e5", "131072", "131073", "0.0001"]).to_string() } else { format!("{}", 10.0 + 590.0 * rng.unit()) };
+            let len = if !many_spans && rng.chance(1, 10) { rng.pick(&["0", "-10", "", "1e5", "131072", "131073", "0.0001", "1e-14", "1e-300", "5e-324", "1e-7"]).to_string() } else { format!("{}", 10.0 + 590.0 * rng.unit()) };
             let nodes = match rng.below(4) {
                 0 => String::new(),
                 1 => ",2|0|4".to_string(),
